@@ -9,23 +9,27 @@ def plan(tier):
     th = tier == 'thorough'
     pos = ['-DWIT_POS']
     wp = (W_OK, W_ERR, 'a positional is reported')
+    H = dict(timeout=3400, est_gb=10)
     qs = [
-        Q(P, 1, ['***', '***'], extra=pos, wit=wp),        # limit 2, not greedy, option awaiting a value
-        Q(P, 1, ['--', '***', '***'], extra=pos, wit=wp),  # everything after -- is positional whatever it looks like (limit 2: the third would exceed)
-        Q(P, 1, ['**', '--', '**', '**'], extra=pos, wit=wp),   # -- in the middle; limit boundary 2 vs 3
-        Q(P, 4, ['**', '***', '**'], extra=pos, wit=wp),   # limit 1, greedy
-        Q(P, 3, ['***', '***'], extra=pos, wit=wp),        # unlimited, greedy, required options
-        Q(P, 9, ['**', '--', '***'], extra=pos, wit=wp),   # unlimited, not greedy
-        Q(P, 2, ['***'], wit=(W_OK, W_ERR)),               # limit 0: no positional ever accepted
+        Q(P, 1, ['--', '***'], extra=pos, wit=(W_OK, 'a positional is reported')),     # everything after -- is positional whatever it looks like
+        Q(P, 1, ['--', 'a', '***'], extra=pos, wit=(W_OK, 'a positional is reported')),
+        Q(P, 1, ['--', 'a', 'b', '***'], wit=(W_ERR,)),                                   # the third positional exceeds the limit 2
+        Q(P, 1, ['a', 'b', '***'], extra=pos, wit=wp),                                    # limit boundary without --
+        Q(P, 1, ['--o', '***'], extra=pos, wit=(W_OK, W_ERR)),                            # -- right after an option awaiting a value
+        Q(P, 4, ['a', '***'], extra=pos, wit=wp),                                         # limit 1, greedy: second token is positional whatever it spells
+        Q(P, 4, ['***'], extra=pos, wit=wp),
+        Q(P, 3, ['-o=1', '--m=2', 'a', '***'], extra=pos, wit=(W_OK, 'a positional is reported')),   # unlimited + greedy: even a declared option after the first positional
+        Q(P, 9, ['a', '***'], extra=pos, wit=wp),                                         # unlimited, not greedy: options still parsed
+        Q(P, 2, ['***'], wit=(W_OK, W_ERR)),                                              # limit 0: no positional ever accepted
+        Q(P, 1, ['****'], extra=pos, wit=wp),
     ]
+    if th:
+        qs += [Q(P, 1, ['***', '***'], extra=pos, wit=wp, **H), Q(P, 1, ['**', '--', '**'], extra=pos, wit=wp, **H), Q(P, 4, ['***', '***'], extra=pos, wit=wp, **H),
+               Q(P, 9, ['***', '***'], extra=pos, wit=wp, **H), Q(P, 3, ['**', '--', '***'], extra=pos, wit=wp, **H), Q(P, 12, ['a', 'b', '***'], extra=pos, wit=wp)]
     # arguments::get(int) / operator[]: all indices in [-n-1, n] for n = 0..3
     for toks in ([], ['?'], ['??', '?'], ['?', '??', '?']):
         qs.append(Q('C12_INDEX', 9, toks, wit=('out-of-range index raised',) + (('negative index answered', 'non-negative index answered') if toks else ()),
                     name='index_n%d' % len(toks)))
-    if th:
-        qs += [Q(P, 1, ['***', '***', '***'], extra=pos, wit=wp, timeout=3000, est_gb=8), Q(P, 4, ['***', '***', '***'], extra=pos, wit=wp, timeout=3000, est_gb=8),
-               Q(P, 9, ['***', '***', '**'], extra=pos, wit=wp, timeout=3000, est_gb=8), Q(P, 12, ['**', '**', '**', '**'], extra=pos, wit=wp, timeout=3000, est_gb=8),
-               Q(P, 3, ['**', '--', '***'], extra=pos, wit=wp)]
     corpus = base_corpus(P, envdecls=[]) + [rt_entry(9, t, 'C12_INDEX', vin=v) for t, v in ((['a', 'bc', 'd'], [3, 0]), (['a', 'bc', 'd'], [6, 1]), (['a', 'bc', 'd'], [0, 0]), (['a'], [5, 0]), ([], [4, 1]))]
     return Runner(P, tier, [parser_unit('parser', qs, corpus)], bounds=dict(BOUNDS_NOTE, index='every index in [-n-1, n] for n = 0..3 positionals, both get(int) and operator[]'),
                   outside=OUTSIDE, assumptions=ASSUME)
